@@ -7,7 +7,7 @@ import diffrun
 
 WRAPPED = ["socket", "fcntl", "fcntl64", "setsockopt", "getsockopt", "getsockname", "getpeername", "bind", "connect", "listen",
            "accept", "accept4", "recv", "recvfrom", "send", "sendto", "poll", "shutdown", "close", "signal",
-           "p_socket_address_new_from_native"]
+           "p_socket_address_new_from_native", "p_socket_address_to_native"]
 NOFORTIFY = ["-U_FORTIFY_SOURCE", "-D_FORTIFY_SOURCE=0"]
 
 
@@ -315,6 +315,23 @@ def argument_cases():
                     yield lab, sock(2, 17) + ([sysl("poll", 1, x=x)] if blocking else []) + [sysl("recvfrom", "e%d" % E.ECONNREFUSED), "recvfrom 0 8 0"]
                     yield lab, sock() + ([sysl("poll", 1, x=x)] if blocking else []) + [sysl("send", "e%d" % E.EPIPE), "send 0 a1b2"]
                     yield lab, sock() + ([sysl("poll", 1, x=x)] if blocking else []) + [sysl("recv", 2, d="a1b2"), "recv 0 8"]
+    # enumeration arguments outside their range: the code tests `== POLLIN` / `== RCV` and takes the other arm for everything else
+    for c in (0, 3, -1, 2**31 - 1):
+        yield "args/enum", mk_socket(0) + [sysl("poll", 1), "wait 0 %d" % c, sysl("poll", 0), "wait 0 %d" % c]
+    for d in (2, -1, 2**31 - 1, -2**31):
+        yield "args/enum", mk_socket(0) + [sysl("setsockopt", 0), "setbuf 0 %d 4096" % d, sysl("setsockopt", "e%d" % E.ENOBUFS), "setbuf 0 %d 0" % d,
+                                           sysl("setsockopt", 1), "setbuf 0 %d 1" % d]
+    for d in (0, 1):
+        for n in SIZES_EDGE:
+            yield "args/setbuf", mk_socket(0) + [sysl("setsockopt", 0), "setbuf 0 %d %d" % (d, n), sysl("setsockopt", "e%d" % E.EINVAL), "setbuf 0 %d %d" % (d, n)]
+    # p_socket_new over the whole family x type x protocol grid (values inside and outside the enumerations; SEQPACKET / SCTP),
+    # with socket() succeeding and refusing; then the getters, a connect attempt and free
+    for fam in (2, 10, 1, 0, -1, 9999):
+        for typ in (1, 2, 3, 0, 4, -1):
+            for proto in (6, 17, 132, 0, -1, 999):
+                yield "args/new-grid", t_new(7) + ["new 0 %d %d %d" % (fam, typ, proto), "setto 0 3", sysl("close", 0), "free 0"]
+            yield "args/new-grid", [sysl("socket", "e%d" % E.EAFNOSUPPORT)] + ["new 0 %d %d 6" % (fam, typ), "setto 0 3", "free 0"]
+            yield "args/new-grid", [sysl("socket", "e%d" % E.EPROTONOSUPPORT)] + ["new 0 %d %d 132" % (fam, typ), "free 0"]
     # descriptor 0 is a descriptor
     for fd in (0, 1, 2, 1023, 1024, 4095):          # (the harness tracks close-on-exec for descriptors below 4096)
         yield "args/fd", t_new(fd) + ["new 0 2 1 6", sysl("poll", 1), sysl("recv", 1, d="aa"), "recv 0 4", sysl("close", 0), "close 0"]
@@ -338,9 +355,94 @@ def argument_cases():
             yield "args/after-close", base + [o, "close 0", sysl("close", 0), "free 0"]
 
 
+SA_UNIX = "0100" + "2f746d702f78" + "00"                  # sockaddr_un "/tmp/x": a family the library does not know
+SA_SHORT4 = "0200"                                        # only sa_family written (addrlen 2)
+BADADDR = ["bad:" + SA4, "bad:" + SA6]                    # an address object p_socket_address_to_native rejects
+
+
+def details_variants():
+    """every branch of pp_socket_set_details_from_fd + pp_socket_set_fd_blocking as (label, native results, socket made?):
+    SO_TYPE failing / non-zero / option length != 4, every native type, getsockname failing / non-zero / reporting address
+    length 0 (SO_DOMAIN branch, failing), address families the library knows and does not know (no getpeername then),
+    getpeername results, SO_KEEPALIVE failing / odd option length / values other than 0 and 1, F_GETFL / F_SETFL failing"""
+    ebadf, enotsock, enotconn = "e%d" % E.EBADF, "e%d" % E.ENOTSOCK, "e%d" % E.ENOTCONN
+    blk = [sysl("fcntl", 2), sysl("fcntl", 0)]
+    ok_tail = [sysl("getpeername", 0, sa=SA4), sysl("getsockopt", 0, v=0)] + blk
+    for ret in (enotsock, ebadf, "1", "7"):
+        yield "so_type-fails", [sysl("getsockopt", ret, v=1)], False
+    for ln in (0, 1, 2, 3, 5, 8, -1):
+        yield "so_type-optlen", [sysl("getsockopt", 0, v=1, l=ln)], False
+    for nt in (1, 2, 5, 3, 0, 77, -1):
+        for sa in (SA4, SA6, SA_UNIX):
+            known = sa != SA_UNIX
+            yield "native-type/family", [sysl("getsockopt", 0, v=nt), sysl("getsockname", 0, sa=sa)] + \
+                ([sysl("getpeername", 0, sa=sa)] if known else []) + [sysl("getsockopt", 0, v=1)] + blk, True
+    for ret in (ebadf, "e%d" % E.ENOBUFS, "1"):
+        yield "getsockname-fails", [sysl("getsockopt", 0, v=1), sysl("getsockname", ret, sa=SA4)], False
+    for ret in (enotsock, "e%d" % E.ENOPROTOOPT, "1"):
+        yield "so_domain-fails", [sysl("getsockopt", 0, v=1), sysl("getsockname", 0, sa="-"), sysl("getsockopt", ret, v=2)], False
+    for sa in (SA_UNIX, "1000" + "00" * 10, "ffff", "0000", "0a01" + "00" * 26, "0201" + "00" * 14):
+        yield "family-unknown", [sysl("getsockopt", 0, v=2), sysl("getsockname", 0, sa=sa), sysl("getsockopt", 0, v=1)] + blk, True
+    yield "family-short-sa", [sysl("getsockopt", 0, v=1), sysl("getsockname", 0, sa=SA_SHORT4)] + ok_tail, True
+    for pr in ("0", "5", enotconn, ebadf):
+        yield "getpeername", [sysl("getsockopt", 0, v=1), sysl("getsockname", 0, sa=SA6), sysl("getpeername", pr, sa=SA6), sysl("getsockopt", 0, v=0)] + blk, True
+    for kr, kw in (("0", {"v": 1, "l": 1}), ("0", {"v": 7, "l": 8}), ("0", {"v": 256}), ("0", {"v": -1}), ("0", {"v": 0, "l": 0}), ("1", {"v": 1}),
+                   ("e%d" % E.ENOPROTOOPT, {"v": 1}), (ebadf, {})):
+        yield "so_keepalive", [sysl("getsockopt", 0, v=1), sysl("getsockname", 0, sa=SA4), sysl("getpeername", enotconn), sysl("getsockopt", kr, **kw)] + blk, True
+    head = [sysl("getsockopt", 0, v=1), sysl("getsockname", 0, sa=SA4), sysl("getpeername", 0, sa=SA4), sysl("getsockopt", 0, v=0)]
+    yield "f_getfl-fails", head + [sysl("fcntl", ebadf), sysl("fcntl", 0)], True
+    yield "f_getfl-nonblock-set", head + [sysl("fcntl", 2048 | 2), sysl("fcntl", 0)], True
+    for ret in (ebadf, "e%d" % E.EINVAL):
+        yield "f_setfl-fails", head + [sysl("fcntl", 2), sysl("fcntl", ret)], False
+
+
+def adoption_cases():
+    """p_socket_new_from_fd directly and inside p_socket_accept (which must close the descriptor itself when the adoption
+    fails), over details_variants(); afterwards every getter is read by one more call and the object is freed"""
+    for lab, sc, made in details_variants():
+        for fd in (6, 0):
+            after = [sysl("close", 0), "free 0"] if made else ["free 0"]
+            yield "adopt/newfd/" + lab, sc + ["newfd 0 %d" % fd, "setto 0 7"] + after
+        for getfd in (0, 1):
+            for closeret in ((0, "e%d" % E.EIO) if not made else (0,)):
+                tail = sc + ([] if made else [sysl("close", closeret)])
+                after = [sysl("close", 0), "free 1"] if made else ["free 1"]
+                yield "adopt/accept/" + lab, mk_socket(0, 10, 1, 0) + [sysl("listen", 0), "listen 0", sysl("poll", 1), sysl("accept", 9)] + \
+                    [sysl("fcntl", getfd)] + ([sysl("fcntl", 0)] if getfd == 0 else []) + tail + ["accept 0 1", "setto 1 7"] + after + [sysl("close", 0), "free 0"]
+
+
+def bad_address_cases():
+    """bind / connect / send_to with an address object that p_socket_address_to_native rejects: FAILED, no bind / connect /
+    sendto issued, mode fields untouched; in every mode, on an open, a connected and a closed socket"""
+    for mname, blocking, timeout in MODES:
+        for state in ("open", "connected", "closed"):
+            for bad in BADADDR:
+                def sock(typ=1, proto=6):
+                    ops = mk_socket(0, 2, typ, proto, 5, blocking, timeout)
+                    if state == "connected":
+                        ops += [sysl("connect", 0), "connect 0 " + SA4]
+                    return ops + ([sysl("close", 0), "close 0"] if state == "closed" else [])
+                w = [sysl("poll", 1)] if blocking else []
+                lab = "badaddr/%s/%s" % (mname, state)
+                yield lab, sock() + [sysl("connect", 0), "connect 0 " + bad, sysl("connect", 0), "connect 0 " + SA4]
+                yield lab, sock() + [sysl("connect", "e%d" % E.EINPROGRESS), sysl("poll", 1), sysl("getsockopt", 0, v=0), "connect 0 " + bad]
+                for reuse in (0, 1):
+                    yield lab, sock(2, 17) + [sysl("setsockopt", 0), sysl("setsockopt", 0), sysl("bind", 0), "bind 0 %s %d" % (bad, reuse)]
+                    yield lab, sock() + [sysl("setsockopt", "e%d" % E.ENOPROTOOPT), sysl("setsockopt", "e%d" % E.ENOPROTOOPT), sysl("bind", 0), "bind 0 %s %d" % (bad, reuse)]
+                yield lab, sock(2, 17) + w + [sysl("sendto", 2), "sendto 0 %s a1b2" % bad]
+                yield lab, sock(2, 17) + w + [sysl("sendto", 0), "sendto 0 %s -" % bad]
+                yield lab, sock(2, 17) + w + [sysl("sendto", 2), "sendto 0 %s null 2" % bad]
+                yield lab, sock(2, 17) + w + [sysl("sendto", 2), "sendto 0 %s a1b2" % bad, sysl("poll", 1), sysl("sendto", 2), "sendto 0 %s a1b2" % SA4]
+    for fl in SHUTDOWN_FLAGS:
+        for ret in (0, "e%d" % E.ENOTCONN, 1):
+            yield "shutdown/" + fl.replace(" ", ","), mk_socket(0) + [sysl("connect", 0), "connect 0 " + SA4, sysl("shutdown", ret), "shutdown 0 " + fl,
+                                                                  sysl("shutdown", 0), "shutdown 0 1 1", sysl("close", 0), "close 0", sysl("shutdown", 0), "shutdown 0 " + fl]
+    yield "badaddr/null-socket", ["connect 3 " + BADADDR[0], "bind 3 %s 1" % BADADDR[1], "sendto 3 %s a1b2" % BADADDR[0]]
+
+
 def special_cases():
     out = []
-    for lab, ops in itertools.chain(errno_sweep_cases(), argument_cases()):
+    for lab, ops in itertools.chain(errno_sweep_cases(), argument_cases(), adoption_cases(), bad_address_cases()):
         out.append((lab, ops))
     return out
 
@@ -475,6 +577,13 @@ def polls(rng, blocking):
     return [sysl("poll", "e%d" % E.EINTR)] * rng.choice([0, 0, 0, 1, 3]) + [sysl("poll", last, **extra)]
 
 
+DETAILS_VARIANTS = list(details_variants())
+# p_socket_shutdown compares its pboolean arguments with `== TRUE`: with a read flag other than 0 / 1, or a write flag other than
+# 0 / 1 next to a set read flag, the direction shut down is not the one asked for (coverage/sockets-shutdown-pboolean.replay; the
+# model follows the code, the spec line differs).  The generators use the values for which code and spec agree.
+SHUTDOWN_FLAGS = ["0 0", "0 1", "1 0", "1 1", "0 1", "1 0", "1 1", "0 2", "0 -1", "0 256", "0 2147483647", "0 -2147483648"]
+
+
 def random_sequence(rng, n, chk=None):
     sim = Sim()
     ops = []
@@ -495,8 +604,11 @@ def random_sequence(rng, n, chk=None):
                     fam, typ, proto = rng.choice([(0, 1, 6), (2, 0, 6), (2, 1, -1), (2, 9, 6)])
                 ops += inject(rng, t_new(fd, rng.choice([1, 1, 0, 2]))) + ["new %d %d %d %d" % (s, fam, typ, proto)]
             else:
-                ops += inject(rng, t_newfd(native_type=rng.choice([1, 2, 5, 9]), fam=rng.choice([2, 10]), peer=rng.random() < 0.5, ka=rng.choice([0, 1]))) + \
-                    ["newfd %d %d" % (s, rng.choice([fd, fd, -1]))]
+                if rng.random() < 0.3:
+                    dv = rng.choice(DETAILS_VARIANTS)[1]
+                else:
+                    dv = t_newfd(native_type=rng.choice([1, 2, 5, 9]), fam=rng.choice([2, 10]), peer=rng.random() < 0.5, ka=rng.choice([0, 1]))
+                ops += inject(rng, dv) + ["newfd %d %d" % (s, rng.choice([fd, fd, -1]))]
             sim.blocking[s] = True          # if creation failed the slot stays empty; later ops hit NULL (also a case)
             sim.closed[s] = False
             if chk:
@@ -525,16 +637,19 @@ def random_sequence(rng, n, chk=None):
                 if op != "connect" and rng.random() < 0.04:
                     ops += sc + [odd_argument_call(rng, op, s, payload, fam)]
                 else:
-                    ops += sc + [call_line(op, s, buflen, payload, fam, want=rng.choice([1, 1, 0]))]
+                    cl = call_line(op, s, buflen, payload, fam, want=rng.choice([1, 1, 0]))
+                    if op in ("connect", "sendto") and rng.random() < 0.04:
+                        cl = cl.replace(" " + ADDRS[fam][0], " bad:" + ADDRS[fam][0], 1)
+                    ops += sc + [cl]
         elif op == "bind":
-            ops += inject(rng, [sysl("setsockopt", 0), sysl("setsockopt", 0), sysl("bind", 0)]) + ["bind %d %s %d" % (s, rng.choice(ADDRS[fam] + ["null"]), rng.choice([0, 1, 1, 2, -1]))]
+            ops += inject(rng, [sysl("setsockopt", 0), sysl("setsockopt", 0), sysl("bind", 0)]) + ["bind %d %s %d" % (s, rng.choice(ADDRS[fam] + ["null", "bad:" + ADDRS[fam][0]]), rng.choice([0, 1, 1, 2, -1]))]
         elif op == "listen":
             ops += inject(rng, [sysl("listen", 0)]) + ["listen %d" % s]
         elif op == "close":
             ops += inject(rng, [sysl("close", 0)], 0.1) + ["close %d" % s]
             sim.closed[s] = True
         elif op == "shutdown":
-            ops += inject(rng, [sysl("shutdown", 0)]) + ["shutdown %d %d %d" % (s, rng.randrange(2), rng.randrange(2))]
+            ops += inject(rng, [sysl("shutdown", 0)]) + ["shutdown %d %s" % (s, rng.choice(SHUTDOWN_FLAGS))]
         elif op == "setbuf":
             ops += inject(rng, [sysl("setsockopt", 0)]) + ["setbuf %d %d %d" % (s, rng.randrange(2), rng.choice([0, 1024, 65536, 2**31, 2**32 + 5]))]
         elif op == "wait":
